@@ -21,6 +21,7 @@ CATS = common.CATS
 BODY = {"create": ("assert 5 == snapshot()", "assert 5 == snapshot(5)"),
         # a created value whose repr is not Python code: the file also needs `from inline_snapshot import HasRepr`
         "create_hr": ("assert NoRepr(1) == snapshot()", 'assert NoRepr(1) == snapshot(HasRepr(NoRepr, "<NoRepr 1>"))'),
+        "fix_hr": ("assert NoRepr(1) == snapshot(5)", 'assert NoRepr(1) == snapshot(HasRepr(NoRepr, "<NoRepr 1>"))'),
         "fix": ("assert 5 == snapshot(4)", "assert 5 == snapshot(5)"),
         "trim": ("assert 2 <= snapshot(8)", "assert 2 <= snapshot(2)"),
         "update": ("assert 5 == snapshot(0+5)", "assert 5 == snapshot(5)")}
@@ -30,11 +31,17 @@ def gen(rng, tier, shape=None):
     if shape and shape.get("plain"):
         # scope of C19: plain category flags on the command line, nothing else
         pending = [c for c in CATS if rng.random() < 0.8]
-        return {"pending": pending, "cli": [c for c in CATS if rng.random() < 0.45], "env": None, "pyd": None, "pyd_tui": None,
+        cli = [c for c in CATS if rng.random() < 0.45]
+        force = rng.random() < 0.25
+        if force:
+            # two rewritten files, the first one needs an import that the second one must not get
+            pending = ["create", "fix"] + [c for c in pending if c in ("trim", "update")]
+            cli = sorted(set(cli) | {"create", "fix"}, key=CATS.index)
+        return {"pending": pending, "cli": cli, "force_two_files": force, "env": None, "pyd": None, "pyd_tui": None,
                 "shortcut": None, "tty": False, "ci": None, "xdist": None, "answers": {c: False for c in CATS}, "skip": False,
                 "xfail": rng.random() < 0.3, "plain": True, "dup": rng.random() < 0.3, "unknown": False, "empty_no": False,
-                "split": rng.random() < 0.5,      # the pending categories are spread over two test files
-                "hasrepr": rng.random() < 0.35}   # the created value needs HasRepr (and its import)
+                "split": force or rng.random() < 0.5,      # the pending categories are spread over two test files
+                "hasrepr": force or rng.random() < 0.5}    # the created value needs HasRepr (and its import)
     pending = [c for c in CATS if rng.random() < 0.75]
     cats = [c for c in CATS if rng.random() < 0.4]
     mode = rng.choice([[], [], ["report"], ["review"], ["short-report"], ["disable"]])
@@ -44,12 +51,14 @@ def gen(rng, tier, shape=None):
     fl = cats + mode
     rng.shuffle(fl)
     case = {"pending": pending, "cli": None, "env": None, "pyd": None, "pyd_tui": None, "shortcut": None,
-            "tty": rng.random() < 0.15, "ci": rng.choice(["GITHUB_ACTIONS", "CI", "TRAVIS"]) if rng.random() < 0.08 else None,
+            "tty": rng.random() < 0.15, "ci": rng.choice(sorted(CI_VALUES)) if rng.random() < 0.12 else None,
             "xdist": rng.choice(["2", "0"]) if rng.random() < 0.12 else None,
             "answers": {c: rng.random() < 0.5 for c in CATS}, "skip": rng.random() < 0.1,
             "empty_no": rng.random() < 0.3,      # a "no" is given as an empty line (the prompt's default)
             "xfail": rng.random() < 0.1, "dup": rng.random() < 0.2, "unknown": False,
-            "orphan": rng.random() < 0.4}     # a persisted external that no test references lies in the storage
+            "orphan": rng.random() < 0.4,     # a persisted external that no test references lies in the storage
+            "helper": rng.random() < 0.4 and "fix" in pending}   # a test that hands a (wrong) snapshot to inline_snapshot.testing.Example
+                                                                 # (one more pending fix: only where fix is pending anyway)
     if rng.random() < 0.04:
         fl = fl + ["bogus"]
         case["unknown"] = True
@@ -75,6 +84,9 @@ NOREPR = ["class NoRepr:", "    def __init__(self, i): self.i = i", "    def __r
 
 
 def body_of(case, c):
+    if case.get("force_two_files"):
+        # the file that is rewritten first (a replaced value) needs HasRepr, the second one (a created value) must not get the import
+        return BODY["fix_hr"] if c == "fix" else BODY[c]
     return BODY["create_hr"] if c == "create" and case.get("hasrepr") else BODY[c]
 
 
@@ -82,6 +94,9 @@ def split_cats(case):
     """(categories in test_a.py, categories in test_b.py)"""
     if not case.get("split"):
         return list(case["pending"]), []
+    if case.get("force_two_files"):
+        rest = [c for c in case["pending"] if c not in ("create", "fix")]
+        return ["fix"] + rest[0::2], ["create"] + rest[1::2]
     return list(case["pending"][0::2]), list(case["pending"][1::2])
 
 
@@ -120,6 +135,14 @@ MODULE_XFAIL = ("from inline_snapshot import snapshot\nimport pytest\n\npytestma
 
 
 import hashlib
+# how CI systems announce themselves: most of these variables are not booleans
+CI_VALUES = {"CI": "true", "GITHUB_ACTIONS": "true", "TRAVIS": "true", "CIRCLECI": "true", "BUILDKITE": "true", "CONTINUOUS_INTEGRATION": "true",
+             "JENKINS_URL": "https://ci.example.org/", "HUDSON_URL": "http://hudson.example.org/", "TEAMCITY_VERSION": "2023.05.4 (build 129421)",
+             "BUILD_NUMBER": "57", "BUILD_ID": "2026-09-26_12-00-00"}
+HELPER = ("from inline_snapshot import snapshot\nfrom inline_snapshot.testing import Example\n\n\n"
+          "def test_fix_helper_0():\n"
+          "    Example({'test_x.py': 'from inline_snapshot import snapshot\\ndef test_x():\\n    assert 1 == snapshot()\\n'}).run_inline(\n"
+          "        ['--inline-snapshot=create'], reported_categories=snapshot(['fix']))\n")
 SEP = "\n# ---- test_b.py ----\n"
 ORPHAN = ".inline-snapshot/external/" + hashlib.sha256(b"orphan").hexdigest() + ".txt"
 
@@ -218,7 +241,7 @@ def run_impl(case):
         args += ["-n", case["xdist"]]
     env = {}
     if case["ci"]:
-        env[case["ci"]] = "true"
+        env[case["ci"]] = CI_VALUES.get(case["ci"], "true")
     if case["tty"]:
         env["FORCE_COLOR"] = "true"
     if case["env"] is not None:
@@ -232,6 +255,8 @@ def run_impl(case):
         files["test_zz_module_xfail.py"] = MODULE_XFAIL
     if case.get("orphan"):
         files[ORPHAN] = b"orphan"
+    if case.get("helper"):
+        files["test_zy_helper.py"] = HELPER
     r = impl_pytest.run_session(files, args, env, stdin_for(case), pyproject(case))
     after = r["files"].get("test_a.py", b"").decode()
     if src_b is not None:
@@ -241,7 +266,7 @@ def run_impl(case):
     obs = {"rc": r["rc"], "outcomes": r["outcomes"], "changed": after != src, "after": after,
            "usage_error": r["rc"] == 4 and after == src, "traceback": "Traceback" in r["stderr"],
            "stderr": r["stderr"][-1500:], "stdout_tail": r["stdout"][-1500:],
-           "other_files": sorted(k for k in r["files"] if k not in ("test_a.py", "test_b.py", "pyproject.toml", "test_zz_module_xfail.py", ORPHAN) and not k.startswith("probe")),
+           "other_files": sorted(k for k in r["files"] if k not in ("test_a.py", "test_b.py", "pyproject.toml", "test_zz_module_xfail.py", "test_zy_helper.py", ORPHAN) and not k.startswith("probe")),
            "orphan_survived": r["files"].get(ORPHAN) == b"orphan",
            "probe": sorted({v.decode() for k, v in r["files"].items() if k.startswith("probe_")}),
            "probex": sorted({v.decode() for k, v in r["files"].items() if k.startswith("probex_")})}
